@@ -41,7 +41,7 @@ def make_case(seed, shard, i):
     r = random.Random(f"{seed}:C06:{shard}:{i}")
     named = r.random() < 0.5
     recs, dialect = csvgen.arbitrary(r, named_headers=named)
-    case = {"records": recs, "dialect": dialect, "named": named, "via_csvpaths": r.random() < 0.2}
+    case = {"records": recs, "dialect": dialect, "named": named, "via_csvpaths": r.random() < 0.2, "keep_blanks": r.random() < 0.2}
     if r.random() < 0.06:
         # delivered through a named file: registered, replaced by other content, registered again
         other, _ = csvgen.arbitrary(r, named_headers=False)
@@ -117,18 +117,27 @@ def run_case(case, agg, tag):
         for i, n in enumerate(names):
             ref = f'#"{n}"' if (" " in n) else f"#{n}"
             comps.append(f"@v{i} = {ref} @w{i} = #{i}")
-        prog = f"${fname}[*][{' '.join(comps)}]"
-        c2, _ = make()
+        # with skip_blank_lines=False blank records reach the match part too: every header reads as absent there
+        keep_blanks = case.get("keep_blanks", False) and not via_csvpaths
+        prog = f"${fname}[*][{' '.join(comps)}" + (" #0" if keep_blanks else "") + "]"
+        if keep_blanks:
+            agg.count("runs_with_skip_blank_lines_false")
+            c2, _ = env.new_csvpath(["raise", "collect"], skip_blank_lines=False, **kw)
+        else:
+            c2, _ = make()
         with hooks.recording(agg) as rec2:
             try:
                 c2.collect(prog)
             except Exception as e:  # noqa
                 return "exception-header-read", {"program": prog, "exc": repr(e)[:300], "dialect": dialect}
         evs = [ev for ev in rec2.lines if ev["considered"]]
-        if len(evs) != len(nonblank):
-            return "considered-count", {"got": len(evs), "want": len(nonblank)}
+        offered = oracle if keep_blanks else nonblank
+        if keep_blanks and oracle and len(oracle[-1]) == 0:
+            offered = oracle[:-1]  # a blank final record is not scanned: it only gives last() its chance to run
+        if len(evs) != len(offered):
+            return "considered-count", {"got": len(evs), "want": len(offered), "skip_blank_lines": not keep_blanks}
         # variables persist across lines: an absent cell must overwrite with None
-        for ev, row in zip(evs, nonblank):
+        for ev, row in zip(evs, offered):
             for i in range(len(names)):
                 want = row[i].strip() if i < len(row) else None
                 v = ev["vars"].get(f"v{i}")
@@ -199,7 +208,7 @@ def shape_of(case):
                 k += "e" if cell == "" else ("q" if any(ch in cell for ch in ',;|\t"\'\n') else ("u" if any(ord(ch) > 127 for ch in cell) else "a"))
             kinds.append(k)
     d = case["dialect"]
-    return f"{d['delimiter']!r}{d['quotechar']}{len(d['lineterminator'])}|{case['named']}|{case.get('via_csvpaths')}|{case.get('named_file_other') is not None}|" + "/".join(kinds)
+    return f"{d['delimiter']!r}{d['quotechar']}{len(d['lineterminator'])}|{case['named']}|{case.get('via_csvpaths')}|{case.get('named_file_other') is not None}|{case.get('keep_blanks')}|" + "/".join(kinds)
 
 
 def run_shard(spec, agg):
